@@ -95,6 +95,37 @@ pub fn op_gchain(args: &[Sexp]) -> String {
     format!("ok ({})", fmt_pts(&out))
 }
 
+/// `raw.gflatten ((x y refl f<angle>) ...) (pts)`: the same chain as a HIERARCHY — cell k holds one
+/// instance of cell k+1 at placement k, the innermost cell holds the polygon — flattened by
+/// `Layout::flatten` from the top (model: unsupported)
+pub fn op_gflatten(args: &[Sexp]) -> String {
+    let chain = match args.get(0).and_then(|c| c.list()) { Some(c) => c, None => return "bad-op".into() };
+    let pts = match args.get(1).and_then(|q| q.list()).and_then(crate::props::c13::parse_pts) { Some(p) => p, None => return "bad-op".into() };
+    let mut layers = raw::Layers::default();
+    let key = layers.add(raw::Layer::from_pairs(1, &[(0, raw::LayerPurpose::Drawing)]).unwrap());
+    let mut leaf = raw::Layout::default();
+    leaf.name = "leaf".into();
+    leaf.elems.push(raw::Element { net: None, layer: key, purpose: raw::LayerPurpose::Drawing, inner: raw::Shape::Polygon(raw::Polygon { points: pts.iter().map(|p| Point::new(p.0 as isize, p.1 as isize)).collect() }) });
+    let mut cur = Ptr::new(raw::Cell::from(leaf));
+    for (k, pl) in chain.iter().enumerate().rev() {
+        let l0 = match pl.list() { Some(l) if l.len() == 4 => l, _ => return "bad-op".into() };
+        let (x, y, refl, ab) = match (l0[0].int(), l0[1].int(), l0[2].boolean(), l0[3].f64bits()) { (Some(x), Some(y), Some(r), Some(a)) => (x, y, r, a), _ => return "bad-op".into() };
+        let mut lay = raw::Layout::default();
+        lay.name = format!("c{}", k);
+        lay.insts.push(raw::Instance { inst_name: "i".into(), cell: cur.clone(), loc: Point::new(x as isize, y as isize), reflect_vert: refl, angle: Some(f64::from_bits(ab)) });
+        cur = Ptr::new(raw::Cell::from(lay));
+    }
+    let res = { let cell = cur.read().unwrap(); cell.layout.as_ref().unwrap().flatten() };
+    match res {
+        Ok(elems) if elems.len() == 1 => match &elems[0].inner {
+            raw::Shape::Polygon(p) => format!("ok ({})", fmt_pts(&p.points.iter().map(|q| (q.x as i64, q.y as i64)).collect::<Vec<_>>())),
+            _ => "ok other".into(),
+        },
+        Ok(elems) => format!("ok count {}", elems.len()),
+        Err(_) => "err".into(),
+    }
+}
+
 struct CellSpec {
     shapes: Vec<Vec<P2>>,
     insts: Vec<(usize, Place)>,
@@ -261,7 +292,7 @@ pub fn oracle(line: &str) -> String {
             }
             "pass".into()
         }
-        "tf.gchain" => {
+        "tf.gchain" | "raw.gflatten" => {
             // exact real-valued composition, innermost placement applied first; one final rounding
             let chain = p[1].list().unwrap_or(&[]);
             let pts = crate::props::c13::parse_pts(p[2].list().unwrap_or(&[])).unwrap_or_default();
@@ -331,6 +362,7 @@ pub fn tag(line: &str) -> String {
         }
         "tf.general" => "general".into(),
         "tf.gchain" => "general-chain".into(),
+        "raw.gflatten" => "general-hierarchy".into(),
         "raw.flatten" => {
             let n = p[1].list().map(|l| l.len()).unwrap_or(0);
             format!("flatten:cells{}", n.min(6))
@@ -413,6 +445,7 @@ pub fn gen(thorough: bool, rng: &mut Rng, out: &mut Vec<String>) {
         }).collect();
         let pts: Vec<P2> = (0..6).map(|_| (rng.range(-s, s), rng.range(-s, s))).collect();
         out.push(format!("tf.gchain ({}) ({})", chain.join(" "), fmt_pts(&pts)));
+        out.push(format!("raw.gflatten ({}) ({})", chain.join(" "), fmt_pts(&pts)));
     }
     // hierarchies: acyclic cell DAGs (cell i instantiates only cells > i), flatten cell 0
     for _ in 0..(if thorough { 20000 } else { 2000 }) {
